@@ -38,6 +38,17 @@ def check_bounded_read_loop(R, f, rid_prefix, loop, counter, buff_names, require
     g = f.cfg
     rd = f.rd
     head = T.loop_head(g, loop)
+    # `counter` is the name of the remaining-length counter (count-down), or ('up', limit, received) for `while limit > received`
+    up = isinstance(counter, tuple)
+    if up:
+        _, limit, counter = counter
+
+    def is_remaining(e):
+        # the expression that stands for the remaining length
+        if not up:
+            return isinstance(e, ast.Name) and e.id == counter
+        return isinstance(e, ast.BinOp) and isinstance(e.op, ast.Sub) and isinstance(e.left, ast.Name) and e.left.id == limit \
+            and isinstance(e.right, ast.Name) and e.right.id == counter
     reads = [c for c in read_param_calls(f) if T.in_body_of(c, loop) and T.loops_of(c)[0] is loop]
     R.require(reads, f'{f.fq}: no stream read inside the `while {counter} > 0` loop')
     for c in reads:
@@ -49,12 +60,12 @@ def check_bounded_read_loop(R, f, rid_prefix, loop, counter, buff_names, require
         if arg is not None:
             cl = rd.closure(arg, cn, stop=lambda x: isinstance(x, ast.Name) and x.id == counter)
             mins = [x for (x, _) in cl if isinstance(x, ast.Call) and isinstance(x.func, ast.Name) and x.func.id == 'min']
-            direct = isinstance(arg, ast.Name) and arg.id == counter
+            direct = is_remaining(arg)
             uses_counter = False
             fresh = True
             for m in mins:
                 for a in m.args:
-                    if counter in names_loaded(a):
+                    if (counter in names_loaded(a)) if not up else is_remaining(T.expand(f, a, cn, keep=(counter, limit))):
                         uses_counter = True
                         # the min() must be evaluated inside this loop (per iteration), not hoisted
                         if not T.in_body_of(m, loop):
@@ -79,7 +90,7 @@ def check_bounded_read_loop(R, f, rid_prefix, loop, counter, buff_names, require
              why='a request larger than the remaining length reads bytes beyond the declared body')
         # --- b: accounting by received length
         var = T.assigned_name_of_call(c)
-        decs = T.decrements_of(loop, counter)
+        decs = T.decrements_of(loop, counter) if not up else T.increments_of(loop, counter)
         if not decs:
             R.ob(rid_prefix + 'b', f, loop.test, False, text=f'while {src(loop.test)}',
                  detail=f'{counter} is never lowered in the loop',
@@ -155,6 +166,18 @@ def check(P, R):
     R.require(len(loops) >= 1, f'{f.fq}: no while-loop that reads the stream')
     for loop in loops:
         counter = T.counter_of_while(loop)
+        cu = T.countup_of_while(loop) if counter is None else None
+        if cu is not None:
+            # count-up formulation: `received = 0; while content_length > received: ... received += len(part)`
+            limit, recv = cu
+            hn = T.loop_head(f.cfg, loop)
+            rdefs = [d for d in f.rd.at(hn, recv) if d.kind != 'aug']
+            init_ok = limit == 'content_length' and all(d.kind == 'param' for d in f.rd.at(hn, limit)) and bool(rdefs) and \
+                all(d.kind == 'assign' and is_const(d.value, 0) for d in rdefs)
+            R.ob('C04.a', f, loop.test, init_ok, text=f'{recv} starts at 0, bounded by content_length',
+                 detail='' if init_ok else f'the loop is not `while content_length > {recv}` with {recv} starting at 0')
+            check_bounded_read_loop(R, f, 'C04.', loop, ('up', limit, recv), buff_names={'buff_size'})
+            continue
         if counter is None and not T.weak_loop_bound(loop):
             R.undecided('C04.a', f, loop.test, f'while {src(loop.test)}', 'the bound of the read loop is not in a form with a recogniser (expected `remaining > 0`)')
             continue
@@ -180,14 +203,23 @@ def check(P, R):
         sf = P.func(fq)
         for loop in [n for n in walk_shallow(sf.node) if isinstance(n, ast.While)]:
             counter = T.counter_of_while(loop)
+            if counter is None and T.countup_of_while(loop) is not None:
+                for (st, amount) in T.increments_of(loop, T.countup_of_while(loop)[1]):
+                    kind = 'len(received)' if (amount is not None and isinstance(amount, ast.Call)
+                                               and isinstance(amount.func, ast.Name) and amount.func.id == 'len') else 'other'
+                    sib.append((sf, st, kind))
+                continue
             if counter is None:
                 continue
             for (st, amount) in T.decrements_of(loop, counter):
                 kind = 'len(received)' if (amount is not None and isinstance(amount, ast.Call)
                                            and isinstance(amount.func, ast.Name) and amount.func.id == 'len') else 'other'
                 sib.append((sf, st, kind))
-    if not any(o['verdict'] == 'violated' for o in R.obligations):
-        R.require(len(sib) >= 3, f'sibling read loops: {len(sib)} decrement sites found, 3 on the pinned tree')
+    if len(sib) < 3:
+        # the siblings are a reference, not an obligation of this property: a sibling rewritten beyond recognition only weakens the comparison
+        R.note(f'sibling read loops: {len(sib)} decrement sites recognised (3 on the pinned tree); the cross-check uses what is there')
+    if not any(o['verdict'] == 'violated' for o in R.obligations) and not R.pending:
+        R.require(any(sf is f for (sf, _, _) in sib), f'{f.fq}: no decrement of the remaining length found in the read loop')
     majority = sum(1 for x in sib if x[2] == 'len(received)')
     for (sf, st, kind) in sib:
         if sf is not f:
